@@ -11,6 +11,7 @@
    being the same motion. *)
 From Coq Require Import List ZArith Bool.
 From T4V Require Import C05.Model C05.Spec C05.Proofs C05.Exec C05.Example C05.LinkC04.
+From T4V Require C06.Model C06.LinkC05 C05.LinkC06.
 Import ListNotations.
 Open Scope Z_scope.
 
@@ -519,3 +520,168 @@ Example C05_example_chain_linked :
   inline_cells motion 9 1 1 (s_cells (snd ex_l2)) = Ok ex_l3 /\
   fst ex_l2 = [[13; 15]].
 Proof. exact ex_link_runs. Qed.
+
+(* the precedence rule over real numbers (linked with C04): a cell card `FILL=n (twelve numbers)`
+   whose numbers are O and a matrix B with exactly orthonormal, clip-ok rows - the case in which
+   C04_inline_12 shows that the parser returns the numbers themselves - places the filling universe
+   at B (p - O), whatever TRCL the cell carries.  [val] = the number a token stands for; [norm] is
+   assumed to be the token image of C04's model of the FILL parser (parse_fill_tr) and never
+   empty; mk_v = the tuple of the tokens' values as a motion *)
+Theorem C05_precedence_located_linked :
+  forall (val : Z -> Rdefinitions.R) (norm : bool -> list Z -> list Z)
+         (trs : list (Z * list Rdefinitions.R)) (trid0 : Z),
+  (forall star ps l,
+     C04.Model.parse_fill_tr Base.Scalar.RS star (map val ps) trs trid0 = C04.Model.Ok l ->
+     map val (norm star ps) = l) ->
+  (forall star ps, norm star ps <> []) ->
+  forall table mat rho geom imp u univ trid params trcl (cl : cell motion)
+         (s : state motion wfentry) du key p c r (o : C04.Spec.R3) (b : C04.Vec.M3 Rdefinitions.R),
+  (forall k cd, dget k table = Some cd -> cd <> []) ->
+  cell_of_keywords motion (mk_v val) norm table mat rho geom imp u (Some (false, univ, trid, params)) trcl
+    = Ok cl ->
+  map val params = C04.ProofsCompose.tr12 o b ->
+  C04.Spec.rows_orthonormal b -> C04.ProofsMatrix.clip_ok_m b ->
+  dget key (s_cells s) = Some cl ->
+  LocW motion wfentry C04.Spec.R3 m_empty m_inv m_sense s du key p (key :: c :: r) true ->
+  LocW motion wfentry C04.Spec.R3 m_empty m_inv m_sense s du c (C04.Spec.to_aux o b p) (c :: r) true.
+Proof. exact precedence_located_linked. Qed.
+Print Assumptions C05_precedence_located_linked.
+
+(* ===== the FILL loop and inlining from ANY table ================================================
+   (fresh counters, empty cache, no provenance; the table need not come from the TRCL loop) *)
+Theorem C05_fill_inline_located :
+  forall (T surf P : Type) (tr_empty : T -> bool) (teqb : T -> T -> bool)
+         (tr_surf : T -> surf -> surf) (inv : T -> P -> P) (sense : surf -> P -> bool),
+  sense_law tr_surf inv sense -> key_law tr_empty teqb inv ->
+  forall fuel cf ifd ifg num den (s s2 : state T surf) rs cells3,
+  fresh_ok T surf s -> s_cache s = [] ->
+  (forall c cl, dget c (s_cells s) = Some cl -> c_orig cl = []) ->
+  fill_phase T surf tr_empty teqb tr_surf fuel cf ifd ifg s = Ok (rs, s2) ->
+  inline_cells T fuel num den (s_cells s2) = Ok cells3 ->
+  Forall2 (Outcome T surf P tr_empty inv sense s (by_universe (s_cells s)) (set_cells T surf s2 cells3))
+          (fill_keys (s_cells s)) rs.
+Proof. exact fill_inline_located. Qed.
+Print Assumptions C05_fill_inline_located.
+
+(* ===== LINKED with C06 (coq/C05/LinkC06.v) ======================================================
+   The chain with a LAT=1 lattice cell in it:
+     TRCL loop over every cell -> develop_lattice of the lattice cell -> del dic[key] ->
+     FILL loop -> inline_cells.
+   The stateful half of develop_lattice is C06's develop_state (C06/LinkC05.v: one
+   cell_transform(key, trnsf, cache=False) per element, then fill / filltr / lattice = None
+   written into the new cell); [elems] is any list of elements with non-empty transformations,
+   in particular the one C06's develop_lattice_with returns (C06_develop_lattice_located says
+   which translation / fill / fill transformation each index gets).  T = the 12 numbers (or the
+   empty tuple), P = C06's vectors over R; surfaces stay abstract with the two laws.
+   Conclusion: the lattice cell is gone; every other cell is its card's cell moved by its TRCL;
+   one new cell per element, listed under its universe, with the element's fill and fill
+   transformation, whose value at p is the lattice cell's at the pulled-back point (ElemOf);
+   and the FILL loop + inlining achieve their Outcome on that table. *)
+Theorem C05_pipeline_with_lattice_linked :
+  forall (surf : Type) (teqb : list Rdefinitions.R -> list Rdefinitions.R -> bool)
+         (tr_surf : list Rdefinitions.R -> surf -> surf)
+         (inv : list Rdefinitions.R -> @C06.Model.vec Rdefinitions.R -> @C06.Model.vec Rdefinitions.R)
+         (sense : surf -> @C06.Model.vec Rdefinitions.R -> bool),
+  sense_law tr_surf inv sense -> key_law (@C06.Model.is_nil Rdefinitions.R) teqb inv ->
+  forall fuel cf ifd ifg num den (s0 s1 s2 s3 : state (list Rdefinitions.R) surf) rs cells4 latkey lcl
+         (elems : list (@C06.Model.new_elem Rdefinitions.R)) keys,
+  fresh_ok _ surf s0 -> s_cache s0 = [] -> NoDup (map fst (s_cells s0)) ->
+  all_ref_free _ surf s0 -> C05.LinkC06.no_orig surf s0 ->
+  trcl_phase _ surf (@C06.Model.is_nil _) teqb tr_surf fuel (map fst (s_cells s0)) s0 = Ok s1 ->
+  dget latkey (s_cells s1) = Some lcl ->
+  Forall (fun e => C06.Model.is_nil (C06.Model.ne_trnsf e) = false) elems ->
+  C06.LinkC05.develop_state surf teqb tr_surf fuel latkey elems s1 = Ok (keys, s2) ->
+  fill_phase _ surf (@C06.Model.is_nil _) teqb tr_surf fuel cf ifd ifg (del_cell _ surf s2 latkey)
+    = Ok (rs, s3) ->
+  inline_cells _ fuel num den (s_cells s3) = Ok cells4 ->
+  let sd := del_cell _ surf s2 latkey in
+  dget latkey (s_cells sd) = None /\
+  (forall k cl, k <> latkey -> dget k (s_cells s0) = Some cl ->
+     exists g', dget k (s_cells sd) = Some (with_geom cl g') /\
+       forall p b, Den _ surf _ sense s0 (act_seq _ _ (@C06.Model.is_nil _) inv (c_trcl cl) p) (c_geom cl) b ->
+                   Den _ surf _ sense sd p g' b) /\
+  Forall2 (C05.LinkC06.ElemOf surf inv sense s1 latkey lcl sd) elems keys /\
+  Forall2 (Outcome _ surf _ (@C06.Model.is_nil _) inv sense sd (by_universe (s_cells sd))
+                   (set_cells _ surf s3 cells4))
+          (fill_keys (s_cells sd)) rs.
+Proof. exact C05.LinkC06.pipeline_with_lattice. Qed.
+Print Assumptions C05_pipeline_with_lattice_linked.
+
+(* ... and a point located THROUGH the lattice: in a level-0 container filled with the lattice's
+   universe, in the element e (the point of the filling frame pulled back by the element's
+   translation is in the lattice cell), then either e keeps the lattice cell's material, or e is
+   filled with universe u and the descent goes on at the point pulled back by e's fill
+   transformation: the final table has a cell that is true at p, with the whole provenance
+   (container, element, descent) and the material of the last cell *)
+Theorem C05_located_through_lattice_linked :
+  forall (surf : Type) (teqb : list Rdefinitions.R -> list Rdefinitions.R -> bool)
+         (tr_surf : list Rdefinitions.R -> surf -> surf)
+         (inv : list Rdefinitions.R -> @C06.Model.vec Rdefinitions.R -> @C06.Model.vec Rdefinitions.R)
+         (sense : surf -> @C06.Model.vec Rdefinitions.R -> bool),
+  sense_law tr_surf inv sense -> key_law (@C06.Model.is_nil Rdefinitions.R) teqb inv ->
+  forall fuel cf ifd ifg num den (s0 s1 s2 s3 : state (list Rdefinitions.R) surf) rs cells4 latkey lcl
+         (elems : list (@C06.Model.new_elem Rdefinitions.R)) keys,
+  fresh_ok _ surf s0 -> s_cache s0 = [] -> NoDup (map fst (s_cells s0)) ->
+  all_ref_free _ surf s0 -> C05.LinkC06.no_orig surf s0 ->
+  trcl_phase _ surf (@C06.Model.is_nil _) teqb tr_surf fuel (map fst (s_cells s0)) s0 = Ok s1 ->
+  dget latkey (s_cells s1) = Some lcl ->
+  Forall (fun e => C06.Model.is_nil (C06.Model.ne_trnsf e) = false) elems ->
+  C06.LinkC05.develop_state surf teqb tr_surf fuel latkey elems s1 = Ok (keys, s2) ->
+  fill_phase _ surf (@C06.Model.is_nil _) teqb tr_surf fuel cf ifd ifg (del_cell _ surf s2 latkey)
+    = Ok (rs, s3) ->
+  inline_cells _ fuel num den (s_cells s3) = Ok cells4 ->
+  let sd := del_cell _ surf s2 latkey in
+  let du := by_universe (s_cells sd) in
+  let sf := set_cells _ surf s3 cells4 in
+  forall key kcl U e ke ecl p,
+  In key (fill_keys (s_cells sd)) ->
+  dget key (s_cells sd) = Some kcl -> c_fill kcl = Some U ->
+  In (e, ke) (combine elems keys) ->
+  dget ke (s_cells sd) = Some ecl -> c_univ ecl = U ->
+  Den _ surf _ sense sd p (c_geom kcl) true ->
+  Den _ surf _ sense s1 (inv (C06.Model.ne_trnsf e) (frame _ _ (@C06.Model.is_nil _) inv kcl p))
+      (TRef latkey) true ->
+  exists ks, In ks rs /\
+  (C06.Model.ne_fill e = None ->
+     exists k ncl, In k ks /\ dget k (s_cells sf) = Some ncl /\ Den _ surf _ sense sf p (TRef k) true /\
+       c_fill ncl = None /\ c_orig ncl = prov [key; ke] /\
+       c_mat ncl = c_mat lcl /\ c_rho ncl = c_rho lcl) /\
+  (forall u c ch, C06.Model.ne_fill e = Some u -> C06.Model.is_nil (C06.Model.ne_filltr e) = false ->
+     In c (du_get u du) ->
+     Located _ surf _ (@C06.Model.is_nil _) inv sense sd du c
+             (inv (C06.Model.ne_filltr e) (frame _ _ (@C06.Model.is_nil _) inv kcl p)) ch ->
+     exists k ncl lfl, In k ks /\ dget k (s_cells sf) = Some ncl /\
+       Den _ surf _ sense sf p (TRef k) true /\
+       c_fill ncl = None /\ c_orig ncl = prov (key :: ke :: ch) /\
+       dget (last ch 0) (s_cells sd) = Some lfl /\ c_mat ncl = c_mat lfl /\ c_rho ncl = c_rho lfl).
+Proof. exact C05.LinkC06.located_through_lattice. Qed.
+Print Assumptions C05_located_through_lattice_linked.
+
+(* any number of lattice cells: TRCL loop -> LAT loop (develop each lattice cell, delete it) ->
+   FILL loop -> inlining.  Each development leaves a table that is again "ready" (fresh counters,
+   empty cache, no CellRef, no provenance), so the FILL loop and inlining achieve their Outcome on
+   the developed table [sd] *)
+Theorem C05_pipeline_with_lattices_linked :
+  forall (surf : Type) (teqb : list Rdefinitions.R -> list Rdefinitions.R -> bool)
+         (tr_surf : list Rdefinitions.R -> surf -> surf)
+         (inv : list Rdefinitions.R -> @C06.Model.vec Rdefinitions.R -> @C06.Model.vec Rdefinitions.R)
+         (sense : surf -> @C06.Model.vec Rdefinitions.R -> bool),
+  sense_law tr_surf inv sense -> key_law (@C06.Model.is_nil Rdefinitions.R) teqb inv ->
+  forall fuel cf ifd ifg num den (s0 s1 sd s3 : state (list Rdefinitions.R) surf) lats rs cells4,
+  fresh_ok _ surf s0 -> s_cache s0 = [] -> NoDup (map fst (s_cells s0)) ->
+  all_ref_free _ surf s0 -> C05.LinkC06.no_orig surf s0 ->
+  trcl_phase _ surf (@C06.Model.is_nil _) teqb tr_surf fuel (map fst (s_cells s0)) s0 = Ok s1 ->
+  C05.LinkC06.lat_phase surf teqb tr_surf fuel lats s1 = Ok sd ->
+  fill_phase _ surf (@C06.Model.is_nil _) teqb tr_surf fuel cf ifd ifg sd = Ok (rs, s3) ->
+  inline_cells _ fuel num den (s_cells s3) = Ok cells4 ->
+  Forall2 (Outcome _ surf _ (@C06.Model.is_nil _) inv sense sd (by_universe (s_cells sd))
+                   (set_cells _ surf s3 cells4))
+          (fill_keys (s_cells sd)) rs.
+Proof. exact C05.LinkC06.pipeline_with_lattices. Qed.
+Print Assumptions C05_pipeline_with_lattices_linked.
+
+(* non-vacuity of the two lattice theorems: a concrete table (container 1 filled with universe 1 =
+   the lattice cell 5), one element with a translation, a degenerate surface instance that obeys
+   both laws; the chain runs: develop_state returns the element cell 6, the FILL loop the cell 7
+   (statement: C05.LinkC06.ex_lat_runs) *)
+Example C05_example_lattice_linked := C05.LinkC06.ex_lat_runs.
